@@ -10,6 +10,9 @@
         open spec fn self_delimiting() -> bool { false }
         open spec fn dec_rel(b: Seq<u8>, v: &File, k: int) -> bool { true }
         open spec fn dec_total() -> bool { false }
+        /// the tag loop stops only at the end of the input, in front of something that is no tag, or in front of a tag that
+        /// is not one of this struct's non-repeatable fields
+        open spec fn dec_stop(rest: Seq<u8>) -> bool { rest.len() == 0 || (match <zvt_builder::encoding::Default as zvt_builder::encoding::Encoding<zvt_builder::Tag>>::spec_dec(rest) { None => true, Some((t, _)) => t.0 != 29u16 && t.0 != 30u16 && t.0 != 7936u16 && t.0 != 28u16 }) }
         /// the tag loop is specified by totality and frame clauses only
         open spec fn functional() -> bool { false }
         //@ fn exp:zvt | impl zvt_builder::encoding::Encoding<File> for zvt_builder::encoding::Default | encode | mod=feig::packets::tlv props=C03
@@ -22,6 +25,10 @@
         //@ tag tags.bookkeeping C13
                     actual_tags@ =~= seen,
                     required_tags@ =~= Set::<u16>::empty().difference(seen),
+        //@ tag tags.stop C13
+                    curr_len == bytes@.len() ==> <zvt_builder::encoding::Default as zvt_builder::encoding::Encoding<File>>::dec_stop(bytes@),
+                ensures
+                    <zvt_builder::encoding::Default as zvt_builder::encoding::Encoding<File>>::dec_stop(bytes@),
         //@ tag tags.loop.decreases C02
                 decreases bytes@.len() + (if curr_len != bytes@.len() { 1nat } else { 0nat }),
         //@ entry
@@ -86,6 +93,9 @@
         open spec fn self_delimiting() -> bool { false }
         open spec fn dec_rel(b: Seq<u8>, v: &WriteData, k: int) -> bool { true }
         open spec fn dec_total() -> bool { false }
+        /// the tag loop stops only at the end of the input, in front of something that is no tag, or in front of a tag that
+        /// is not one of this struct's non-repeatable fields
+        open spec fn dec_stop(rest: Seq<u8>) -> bool { rest.len() == 0 || (match <zvt_builder::encoding::Default as zvt_builder::encoding::Encoding<zvt_builder::Tag>>::spec_dec(rest) { None => true, Some((t, _)) => t.0 != 45u16 }) }
         /// the tag loop is specified by totality and frame clauses only
         open spec fn functional() -> bool { false }
         //@ fn exp:zvt | impl zvt_builder::encoding::Encoding<WriteData> for zvt_builder::encoding::Default | encode | mod=feig::packets::tlv props=C03
@@ -98,6 +108,10 @@
         //@ tag tags.bookkeeping C13
                     actual_tags@ =~= seen,
                     required_tags@ =~= Set::<u16>::empty().difference(seen),
+        //@ tag tags.stop C13
+                    curr_len == bytes@.len() ==> <zvt_builder::encoding::Default as zvt_builder::encoding::Encoding<WriteData>>::dec_stop(bytes@),
+                ensures
+                    <zvt_builder::encoding::Default as zvt_builder::encoding::Encoding<WriteData>>::dec_stop(bytes@),
         //@ tag tags.loop.decreases C02
                 decreases bytes@.len() + (if curr_len != bytes@.len() { 1nat } else { 0nat }),
         //@ entry
@@ -144,6 +158,9 @@
         open spec fn self_delimiting() -> bool { false }
         open spec fn dec_rel(b: Seq<u8>, v: &WriteFile, k: int) -> bool { true }
         open spec fn dec_total() -> bool { false }
+        /// the tag loop stops only at the end of the input, in front of something that is no tag, or in front of a tag that
+        /// is not one of this struct's non-repeatable fields
+        open spec fn dec_stop(rest: Seq<u8>) -> bool { rest.len() == 0 || (match <zvt_builder::encoding::Default as zvt_builder::encoding::Encoding<zvt_builder::Tag>>::spec_dec(rest) { None => true, Some((t, _)) => true }) }
         /// the tag loop is specified by totality and frame clauses only
         open spec fn functional() -> bool { false }
         //@ fn exp:zvt | impl zvt_builder::encoding::Encoding<WriteFile> for zvt_builder::encoding::Default | encode | mod=feig::packets::tlv props=C03
@@ -156,6 +173,10 @@
         //@ tag tags.bookkeeping C13
                     actual_tags@ =~= seen,
                     required_tags@ =~= Set::<u16>::empty().difference(seen),
+        //@ tag tags.stop C13
+                    curr_len == bytes@.len() ==> <zvt_builder::encoding::Default as zvt_builder::encoding::Encoding<WriteFile>>::dec_stop(bytes@),
+                ensures
+                    <zvt_builder::encoding::Default as zvt_builder::encoding::Encoding<WriteFile>>::dec_stop(bytes@),
         //@ tag tags.loop.decreases C02
                 decreases bytes@.len() + (if curr_len != bytes@.len() { 1nat } else { 0nat }),
         //@ entry
@@ -165,6 +186,10 @@
         //@ before (files,bytes)=<
         //@ tag tags.no_second_dispatch.files C13
             proof { assert(!seen.contains(45u16)); seen = seen.insert(45u16) ; }
+            let ghost b_pre = bytes@;
+        //@ after (files,bytes)=<
+        //@ tag tags.stop C13
+            proof { if curr_len == bytes@.len() { crate::frame::lemma_tail_same_len(bytes@, b_pre); } }
         //@ before returnErr(zvt_builder::ZVTError::DuplicateTag(zvt_builder::Tag(45u16)
         //@ tag tags.duplicate_error_is_true.files C13
             proof { assert(seen.contains(45u16)) ; }
@@ -202,6 +227,9 @@
         open spec fn self_delimiting() -> bool { false }
         open spec fn dec_rel(b: Seq<u8>, v: &HostConfigurationData, k: int) -> bool { true }
         open spec fn dec_total() -> bool { false }
+        /// the tag loop stops only at the end of the input, in front of something that is no tag, or in front of a tag that
+        /// is not one of this struct's non-repeatable fields
+        open spec fn dec_stop(rest: Seq<u8>) -> bool { rest.len() == 0 || (match <zvt_builder::encoding::Default as zvt_builder::encoding::Encoding<zvt_builder::Tag>>::spec_dec(rest) { None => true, Some((t, _)) => true }) }
         /// the tag loop is specified by totality and frame clauses only
         open spec fn functional() -> bool { false }
         //@ fn exp:zvt | impl zvt_builder::encoding::Encoding<HostConfigurationData> for zvt_builder::encoding::Default | encode | mod=feig::packets::tlv props=C03
@@ -214,6 +242,10 @@
         //@ tag tags.bookkeeping C13
                     actual_tags@ =~= seen,
                     required_tags@ =~= Set::<u16>::empty().difference(seen),
+        //@ tag tags.stop C13
+                    curr_len == bytes@.len() ==> <zvt_builder::encoding::Default as zvt_builder::encoding::Encoding<HostConfigurationData>>::dec_stop(bytes@),
+                ensures
+                    <zvt_builder::encoding::Default as zvt_builder::encoding::Encoding<HostConfigurationData>>::dec_stop(bytes@),
         //@ tag tags.loop.decreases C02
                 decreases bytes@.len() + (if curr_len != bytes@.len() { 1nat } else { 0nat }),
         //@ entry
@@ -254,6 +286,9 @@
         open spec fn self_delimiting() -> bool { false }
         open spec fn dec_rel(b: Seq<u8>, v: &SystemInformation, k: int) -> bool { true }
         open spec fn dec_total() -> bool { false }
+        /// the tag loop stops only at the end of the input, in front of something that is no tag, or in front of a tag that
+        /// is not one of this struct's non-repeatable fields
+        open spec fn dec_stop(rest: Seq<u8>) -> bool { rest.len() == 0 || (match <zvt_builder::encoding::Default as zvt_builder::encoding::Encoding<zvt_builder::Tag>>::spec_dec(rest) { None => true, Some((t, _)) => t.0 != 65344u16 && t.0 != 65345u16 }) }
         /// the tag loop is specified by totality and frame clauses only
         open spec fn functional() -> bool { false }
         //@ fn exp:zvt | impl zvt_builder::encoding::Encoding<SystemInformation> for zvt_builder::encoding::Default | encode | mod=feig::packets::tlv props=C03
@@ -266,6 +301,10 @@
         //@ tag tags.bookkeeping C13
                     actual_tags@ =~= seen,
                     required_tags@ =~= set![65344u16].difference(seen),
+        //@ tag tags.stop C13
+                    curr_len == bytes@.len() ==> <zvt_builder::encoding::Default as zvt_builder::encoding::Encoding<SystemInformation>>::dec_stop(bytes@),
+                ensures
+                    <zvt_builder::encoding::Default as zvt_builder::encoding::Encoding<SystemInformation>>::dec_stop(bytes@),
         //@ tag tags.loop.decreases C02
                 decreases bytes@.len() + (if curr_len != bytes@.len() { 1nat } else { 0nat }),
         //@ entry
@@ -318,6 +357,9 @@
         open spec fn self_delimiting() -> bool { false }
         open spec fn dec_rel(b: Seq<u8>, v: &ChangeConfiguration, k: int) -> bool { true }
         open spec fn dec_total() -> bool { false }
+        /// the tag loop stops only at the end of the input, in front of something that is no tag, or in front of a tag that
+        /// is not one of this struct's non-repeatable fields
+        open spec fn dec_stop(rest: Seq<u8>) -> bool { rest.len() == 0 || (match <zvt_builder::encoding::Default as zvt_builder::encoding::Encoding<zvt_builder::Tag>>::spec_dec(rest) { None => true, Some((t, _)) => t.0 != 228u16 }) }
         /// the tag loop is specified by totality and frame clauses only
         open spec fn functional() -> bool { false }
         //@ fn exp:zvt | impl zvt_builder::encoding::Encoding<ChangeConfiguration> for zvt_builder::encoding::Default | encode | mod=feig::packets::tlv props=C03
@@ -330,6 +372,10 @@
         //@ tag tags.bookkeeping C13
                     actual_tags@ =~= seen,
                     required_tags@ =~= set![228u16].difference(seen),
+        //@ tag tags.stop C13
+                    curr_len == bytes@.len() ==> <zvt_builder::encoding::Default as zvt_builder::encoding::Encoding<ChangeConfiguration>>::dec_stop(bytes@),
+                ensures
+                    <zvt_builder::encoding::Default as zvt_builder::encoding::Encoding<ChangeConfiguration>>::dec_stop(bytes@),
         //@ tag tags.loop.decreases C02
                 decreases bytes@.len() + (if curr_len != bytes@.len() { 1nat } else { 0nat }),
         //@ entry
